@@ -901,7 +901,15 @@ impl Net {
         self.listeners.keys().cloned().collect()
     }
     pub fn inject_accept_error(&self, key: &str, kind: io::ErrorKind) -> bool {
-        if let Some(l) = self.listeners.get(key) {
+        // "ipc:<path>" names a path: the listener lives on the inode the path points to
+        let resolved = match key.strip_prefix("ipc:") {
+            Some(p) => match self.files.get(Path::new(p)) {
+                Some(ino) => format!("ipc#{ino}"),
+                None => return false,
+            },
+            None => key.to_string(),
+        };
+        if let Some(l) = self.listeners.get(&resolved) {
             let w = {
                 let mut s = l.lock().unwrap();
                 s.accept_errors.push_back(kind);
